@@ -6,11 +6,11 @@
        round trip of proofs/DecFacts.v - is a symbol of the grammar with the capacity of its key;
    (c) the concatenation tokenises back into the same symbols and the decoder returns (raises nothing);
    (d) the graph it returns obeys the table at every atom (C01's invariant).
-   Not a theorem: the last step from the graph to the printed SMILES (as for C01; judged per run by the
-   extracted reader: decode never raises; valid_smiles_under). *)
+   (e) with C01's last mile (proofs/WriterFinal.v): the returned SMILES is valid under the table as judged by the
+       independent reader, whenever fewer than 100 pairs of atoms are joined by ring bonds. *)
 From Coq Require Import String List ZArith NArith Bool.
 Import ListNotations.
-From Selfies Require Import Base Generated Lex Atoms Decoder Config AlphaSpec AlphaFacts DecoderInv DecoderSum TokFacts DecFacts DeriveOk AlphaClosure.
+From Selfies Require Import Base Generated Lex Atoms Decoder Config AlphaSpec AlphaFacts DecoderInv DecoderSum TokFacts DecFacts DeriveOk AlphaClosure Reader WriterFinal.
 Local Open Scope string_scope.
 
 Theorem C07_alphabet_is_documented_set : forall t y, In y (compute_alphabet t) <-> in_alphabet_spec t y.
@@ -45,6 +45,19 @@ Proof.
   intros T xs attribute m HT Hxs E. exact (graph_valence T m (alphabet_string_graph_ok T HT xs Hxs attribute m E)).
 Qed.
 
+
+(* ... and, with C01's last mile, the SMILES string itself is valid under the table (fewer than 100 ring pairs) *)
+Theorem C07_alphabet_strings_valid : forall T xs attribute out maps,
+  table_ok T -> Forall (fun x => In x (compute_alphabet T)) xs ->
+  decoder T (concat xs) false attribute = Ok (out, maps) ->
+  (forall m, decode_graph T (concat xs) false attribute = Ok m -> (length (ring_pairs m) < 100)%nat) ->
+  valid_smiles_under T out = true.
+Proof.
+  intros T xs attribute out maps HT Hxs E Hr.
+  apply (decoder_output_valid T (concat xs) false attribute out maps (proj1 HT)); [|exact E|exact Hr].
+  apply tokenize_all_ok. exact (alphabet_string_digits_ok T HT xs Hxs).
+Qed.
+
 (* the hypothesis is met by the presets (regenerated from the source on this run) *)
 Example C07_presets_accepted : forall name T, In (name, T) preset_constraints -> table_ok T.
 Proof.
@@ -58,3 +71,4 @@ Print Assumptions C07_neutral_symbols_in_grammar_partial.
 Print Assumptions C07_charged_symbols_in_grammar.
 Print Assumptions C07_alphabet_strings_decode.
 Print Assumptions C07_alphabet_strings_obey_table_partial.
+Print Assumptions C07_alphabet_strings_valid.
